@@ -70,10 +70,12 @@ func (t Templates) ServeHTTP(w http.ResponseWriter, r *http.Request) (int, error
 		// pass request up the chain to let another middleware provide us the template
 		code, err := t.Next.ServeHTTP(rb, r)
 		if !rb.Buffered() || code >= 300 || err != nil {
-			if code >= 300 && code < 400 && err == nil {
+			if code < 400 {
 				// the response is not a template to execute (a redirect,
-				// for instance); if the handler has written it, it is in
-				// the buffer and the client must still get it
+				// for instance, or the handler failed half-way); if the
+				// handler has written it, it is in the buffer and the
+				// client must still get it; a status >= 400 asks for an
+				// error response to be written instead
 				rb.WriteBuffered()
 			}
 			return code, err
